@@ -1,5 +1,6 @@
 import BeffVerif.Props.C05
 import BeffVerif.Props.C05Flat
+import BeffVerif.Props.C05Tuple
 open BeffVerif.C05
 #print axioms litInter_has
 #print axioms litUnion_has
@@ -15,3 +16,7 @@ open BeffVerif.C05
 #print axioms BeffVerif.C05Flat.covered_iff
 #print axioms BeffVerif.C05Flat.diff_atoms
 #print axioms BeffVerif.C05Flat.intersect_first
+#print axioms BeffVerif.C05Tuple.closed_tuple_subtype_iff_inclusion
+#print axioms BeffVerif.C05Tuple.inhabitedNot_closed
+#print axioms BeffVerif.C05Tuple.every_shape
+#print axioms BeffVerif.C05Tuple.covered_tuple_iff
